@@ -26,7 +26,7 @@ def _h(key) -> str:
 
 def jsonable(x, depth=0):
     """Best-effort conversion of witnesses to JSON-serialisable data."""
-    if depth > 8:
+    if depth > 60:
         return repr(x)
     if x is None or isinstance(x, (bool, int, str)):
         return x
